@@ -567,6 +567,15 @@ fn corpus() -> Vec<(Ty, String)> {
         v.push((Ty::Struct(vec![("r", Ty::Any), ("s", e())], false), t.replace("\\n", "\n")));
         v.push((Ty::Struct(vec![("r", Ty::Any), ("s", Ty::Seq(Box::new(e())))], false), t.replace("\\n", "\n")));
     }
+    // the payload of a tag-selected variant keeps its scalar STYLE: quoted null-likes are strings / errors, never null
+    for t in ["!S \"\"", "!S ''", "!S \"null\"", "!S '~'", "!S ~", "!S null", "!S", "!S |\n  null\n", "!L \"\"", "!L ''", "!L ~", "!L \"~\"", "!M \"\"", "!M ''", "!I \"\"", "!I \"1\"", "!I '1'", "!B \"true\"", "!B 'no'",
+              "{S: \"\"}", "{S: ~}", "[!S \"\", !S ~]", "r: &r !S \"\"\ns: *r\n", "r: &r \"\"\ns: !S *r\n"] {
+        let pe = Ty::Enum("P", vec![("S", VTy::Newtype(Ty::Option(Box::new(Ty::Str)))), ("L", VTy::Newtype(Ty::Seq(Box::new(i32t())))), ("M", VTy::Newtype(Ty::Map(Box::new(Ty::Str), Box::new(i32t())))),
+            ("I", VTy::Newtype(Ty::Option(Box::new(i32t())))), ("B", VTy::Newtype(Ty::Option(Box::new(Ty::Bool))))]);
+        v.push((pe.clone(), t.replace("\\n", "\n")));
+        v.push((Ty::Seq(Box::new(pe.clone())), t.replace("\\n", "\n")));
+        v.push((Ty::Map(Box::new(Ty::Str), Box::new(pe)), t.replace("\\n", "\n")));
+    }
     for t in ["&a \"\"", "- &a ''\n- *a\n", "[1, 2, 3]", "[1]", "~", "", "[[1, 2], [3]]"] {
         v.push((Ty::Any, t.replace("\\n", "\n")));
         v.push((Ty::Tuple(vec![Ty::Any, Ty::Any]), t.replace("\\n", "\n")));
